@@ -17,6 +17,8 @@ func init() {
 			"C12.follower-path: the in-flight branch waits and performs no upstream call. C12.map-lock: queue.requests only under queue.mu, lookup and insert of loadOrStore in one critical section, lock pairing. C12.write-first: WriteDedupQueue.GetChunk delegates to the read queue only on the not-in-flight edge of its lookup in the write queue.",
 		NotDecided: "linearizability and 'at most one upstream request in flight' as temporal statements over interleavings; these rules decide the per-path protocol each caller follows.",
 		Rules: []rule{
+			{"C12.shared-request", "loadOrStore hands leader and followers the same request pointer that is kept in the map", 1, c12SharedRequest},
+			{"C12.deferred-args", "no deferred call is handed an error variable that is assigned only after the defer statement", 1, func(c *Ctx) { c.deferredErrorArgs() }},
 			{"C12.publish-before-close", "results are stored before close(done); wait receives before loading", 2, c12Publish},
 			{"C12.leader-path", "leader: one upstream call, one markDone with its results, one delete, same results returned", 3, c12Leader},
 			{"C12.follower-path", "follower: wait() only, no upstream call", 3, c12Follower},
@@ -213,6 +215,11 @@ func c12Leader(c *Ctx) {
 				bad = append(bad, "the upstream call does not store the given chunk")
 			}
 			ma := []ssa.Value{nil, mds[0].data, mds[0].err} // recv, data, err
+			// "defer req.markDone(data, err)" evaluates data and err where the defer statement
+			// stands, not when the function returns: before the upstream call that is (nil, nil)
+			if d, isDefer := mds[0].at.(*ssa.Defer); isDefer && !instrDominates(up, d) {
+				bad = append(bad, fmt.Sprintf("markDone is deferred at %s with its arguments evaluated before the upstream call at %s: waiters are handed the values the variables had then (a nil error), not the leader's result", c.pos(d.Pos()), c.pos(up.Pos())))
+			}
 			// err argument: the upstream error
 			ei := errResultIndex(up)
 			errOK := false
@@ -565,5 +572,69 @@ func c12WaitReturnsResult(c *Ctx) {
 	if n == 0 {
 		c.info("request.wait", 0, "no function hands the raw (interface{}, error) result of a request on; waiters load the fields themselves (C12.publish-before-close)")
 		c.ok("request.wait", 0, "no raw-result wrapper")
+	}
+}
+
+// c12SharedRequest: de-duplication works because leader and followers hold the *same* request
+// object: loadOrStore hands out either the pointer it found in the map or the pointer it has
+// just put there.  A copy (a map of request values, "&local") still shares the done channel - so
+// waiters wake up - but not the result fields: followers return (nil, nil).
+func c12SharedRequest(c *Ctx) {
+	fn := c.mustFn("queue.loadOrStore")
+	if fn == nil {
+		return
+	}
+	isReqMap := func(v ssa.Value) bool {
+		return hasOrigin(v, func(o string) bool { return o == "field:queue.requests" })
+	}
+	var stored []ssa.Value
+	instrsAll(fn, func(_ *ssa.BasicBlock, _ int, ins ssa.Instruction) {
+		if mu, ok := ins.(*ssa.MapUpdate); ok && isReqMap(mu.Map) {
+			stored = append(stored, mu.Value)
+		}
+	})
+	n := 0
+	for _, r := range returnsOf(fn) {
+		if len(r.Results) == 0 {
+			continue
+		}
+		n++
+		v := unspill(r, r.Results[0])
+		okAll := true
+		why := ""
+		if _, isPtr := v.Type().Underlying().(*types.Pointer); !isPtr {
+			okAll, why = false, "the request is returned by value"
+		}
+		for _, l := range leaves(v) {
+			found := false
+			// (a) the value looked up in the map
+			if ex, ok := l.(*ssa.Extract); ok {
+				if lk, ok := ex.Tuple.(*ssa.Lookup); ok && isReqMap(lk.X) && ex.Index == 0 {
+					found = true
+				}
+			}
+			if lk, ok := l.(*ssa.Lookup); ok && isReqMap(lk.X) {
+				found = true
+			}
+			// (b) the value put into the map
+			for _, sv := range stored {
+				for _, sl := range leaves(sv) {
+					if sl == l {
+						found = true
+					}
+				}
+			}
+			if !found {
+				okAll = false
+				if why == "" {
+					why = "the returned request (" + l.String() + ") is neither the one found in the map nor the one stored there"
+				}
+			}
+		}
+		c.verdict(okAll, "queue.loadOrStore:same-request", r.Pos(), "leader and followers get the pointer that is in the map",
+			why+": leader and followers hold different request objects, the result published by the leader never reaches the waiters (they return nil data and a nil error)")
+	}
+	if n == 0 {
+		c.bad("queue.loadOrStore:same-request", fn.Pos(), "loadOrStore returns nothing")
 	}
 }
